@@ -287,7 +287,33 @@ def check_mixing(W, ob):
     return n
 
 
+DRAIN_LOSSY = ('take', 'skip', 'step_by', 'filter', 'filter_map', 'take_while', 'skip_while', 'map_while', 'nth', 'last', 'find', 'find_map', 'position', 'any', 'all')
+
+
+def check_drains(W, ob):
+    """a `Drain` removes its whole range when it is dropped, consumed or not: an adaptor that stops early or skips elements (`take`, `take_while`, `filter`, `find`, `any` ...)
+    applied to a Drain -- the endpoint's event queue handed to the session by `poll`, a queue being flushed -- destroys what it does not yield"""
+    n = 0
+    for f in W.fx.fn_list:
+        if f.derived:
+            continue
+        for t in f.calls():
+            if t.callee.indirect is not None or not t.arg_tys or 'Drain<' not in t.arg_tys[0]:
+                continue
+            seg = last_seg(t.callee.best)
+            n += 1
+            if seg in DRAIN_LOSSY:
+                ob.fail('drain|%s|%s' % (short(f.parent if f.kind == 'closure' and f.parent else f.path), seg),
+                        '%s applies `%s` to a Drain: the elements it does not yield are removed from the queue all the same and are lost (events, inputs, messages that were '
+                        'already acknowledged)' % (short(f.parent if f.kind == 'closure' and f.parent else f.path), seg), where(f, t.line))
+            else:
+                ob.ok('%s: Drain consumed by `%s`' % (short(f.path), seg), where(f, t.line))
+    return n
+
+
 def rule(W, ob):
+    n7 = check_drains(W, ob)
+    ob.require_count(n7, 3, 'uses of a Drain')
     n6 = check_mixing(W, ob)
     ob.require_count(n6, 60, 'values handed on by constructors')
     n5 = check_setters(W, ob)
